@@ -586,20 +586,30 @@ class C15(Base):
         slots = []
         pivot_n = rng.randint(2, min(nmax, 24))
         pivot_s = rng.randint(1, pivot_n)
+        pivot_r = rng.randint(1, 3)
+        pivot_d = rng.randint(1, 3)
         if e3:
             nmax, rfmax = min(nmax, 40), min(rfmax, 32)
         for _ in range(nslots):
             v = rng.choice(VARIANTS)
             cfg = draw_cfg(rng, v, nmax, rfmax)
             if rng.random() < 0.4 and cfg["cls"] in ("Multistage", "Mixed"):
-                # collide on memo keys: same / neighbouring (n, s)
-                cfg["N"] = max(1, pivot_n + rng.choice((-1, 0, 0, 1)))
-                s = max(1, pivot_s + rng.choice((-1, 0, 0, 1, 40)))
+                # collide on memo / cache keys: same or neighbouring (n, s),
+                # same totals with different splits and trajectories
+                cfg["N"] = max(1, pivot_n + rng.choice((-1, 0, 0, 0, 1)))
+                s = max(1, pivot_s + rng.choice((-1, 0, 0, 0, 1, 40)))
                 if cfg["cls"] == "Mixed":
                     cfg["p"]["s"] = s
                 else:
-                    cfg["p"]["r"], cfg["p"]["d"] = rng.choice(
-                        ((0, s), (s, 0), (1, max(1, s - 1))))
+                    r = rng.randint(0, s)
+                    cfg["p"]["r"], cfg["p"]["d"] = r, s - r
+                    if rng.random() < 0.3:
+                        cfg["p"]["r"], cfg["p"]["d"] = pivot_r, pivot_d
+            elif rng.random() < 0.3 and "uf" in cfg["p"]:
+                # Revolve family: same unit counts, different cost vectors
+                cfg["N"] = max(1, min(pivot_n + rng.choice((0, 0, 1, 7)),
+                                      rfmax))
+                cfg["p"]["s"] = 1 + pivot_s % 3
             slots.append((cfg, draw_passes(rng, cfg, 2), "every"))
         if e3:
             # engine E3: the same tasks, pre-empted at line granularity
